@@ -117,8 +117,19 @@ SMALL_STREAM = 120          # streams up to this length get every 2-cut
 CHUNKS = list(range(1, 17)) + [2047, 2048, 2049]
 
 
+# near-maximum-size messages (the length field is 16 bits): "jumbo_<length>"; controller side a packet-in, switch
+# side a packet-out, both carrying (length - fixed part) bytes of data
+JUMBO_SIZES = (63487, 63488, 63489, 65535)      # 31*2048 - 1, 31*2048, 31*2048 + 1, 0xffff
+
+def jumbo (side, n):
+  if side == "controller": return lambda x: S.packet_in(x, _pat(n - 18, 6), in_port=1)
+  return lambda x: W.packet_out(x, _OUT, _pat(n - 24, 7), in_port=1)
+
+
 def build (side, seq):
   tab = dict(ALPHA[side])
+  for name in seq:
+    if name.startswith("jumbo_") and name not in tab: tab[name] = jumbo(side, int(name[6:]))
   return [tab[name](0x0C020000 + 0x101 * (i + 1)) for i, name in enumerate(seq)]
 
 
@@ -446,8 +457,34 @@ def size_cases (lens):
   return out
 
 
+JUMBO_CHUNKS = (1, 1460, 2047, 2048, 2049, 4096, 8191, 8192, 8193, 16384)    # dribble, an Ethernet MSS, the recv sizes
+
+def jumbo_cases (lens):
+  """Streams holding a near-64K message: unsegmented; fixed read sizes; every 1-cut in the first 2048+16 bytes (every
+  phase of the controller's 2048-byte read grid relative to the stream), in the last 2048+16 bytes before each
+  message end, within 16 bytes of every message boundary, and at k*2048 / k*8192 -1,0,+1; every 2-cut over the
+  header-critical positions."""
+  L = sum(lens)
+  yield ("cuts", ())
+  for k in JUMBO_CHUNKS:
+    if k < L: yield ("chunk", k)
+  P = set(range(1, 2048 + 17))
+  s = 0
+  for ln in lens:
+    e = s + ln
+    P.update(range(s - 16, s + 17)); P.update(range(e - 2048 - 16, e + 17))
+    s = e
+  for step in (2048, 8192):
+    for k in range(1, L // step + 1): P.update((k * step - 1, k * step, k * step + 1))
+  for p in sorted(q for q in P if 1 <= q <= L - 1): yield ("cuts", (p,))
+  for c in itertools.combinations(critical(lens), 2): yield ("cuts", c)
+
+
 def cases_for (lens, threecuts):
   L = sum(lens)
+  if max(lens) > 60000:
+    for c in jumbo_cases(lens): yield c
+    return
   if len(lens) > 3:
     # bulk streams (many messages arriving in few reads): unsegmented, every fixed read size, every 1-cut,
     # the read-size boundary cases
@@ -760,7 +797,13 @@ def run (cfg):
               "(controller receives %s; switch receives %s; bytes from the spec encoders, distinct xid per position); for each "
               "stream of length L: unsegmented, every 1-cut (L-1), every fixed read size in %s (1 = one-byte dribble), every 2-cut "
               "over P = {0..12 bytes after a message start, 0..2 bytes before a message end, k*2048-1..k*2048+1} (every 2-cut "
-              "outright when L <= %d)%s; segments longer than the receiver's recv size (2048 controller, 8192 switch) are handed "
+              "outright when L <= %d)%s; bulk streams (n x 8-byte, n/2 x (8+12)-byte; switch also 7 x 2500-byte, 1366 x 12-byte): "
+              "unsegmented, fixed read sizes incl. 4096, 8191..8193, 16383..16385, every 1-cut (not for the 1366-message stream), "
+              "and the read-size boundary: the socket holds exactly n bytes, n in {8191..8193, 16383..16385}, at one wake-up, from "
+              "offset a in {0,1,4,8,first boundary,+1,1000,8192}; near-maximum-size streams (a %s-byte packet-in / packet-out "
+              "followed by one small, two small or a 2500-byte message, or between two small ones): unsegmented, read sizes %s, "
+              "every 1-cut in the first and (per message) last 2048+16 bytes, within 16 bytes of a boundary and at k*2048 / k*8192 "
+              "+-1, every 2-cut over header-critical positions; segments longer than the receiver's recv size (2048 controller, 8192 switch) are handed "
               "out in pieces. distinct = distinct (side, sequence, bytes-received -> delivered-count profile, verdict); states = "
               "distinct (side, sequence, bytes received, residual buffer length). controller-live: a fresh real Connection in "
               "the handshake state with its real handler tables (nothing replaced); stream = hello, features reply, the "
@@ -772,6 +815,7 @@ def run (cfg):
               % (maxlen, ", ".join("%s(%d)" % (n, len(f(1))) for n, f in CTRL),
                  ", ".join("%s(%d)" % (n, len(f(1))) for n, f in SWITCH), CHUNKS, SMALL_STREAM,
                  ", every 3-cut over the header-critical positions {0,1,3,4,7,8 bytes into a message, its last byte}" if threecuts else "",
+                 "/".join(str(n) for n in JUMBO_SIZES), list(JUMBO_CHUNKS),
                  " / ".join(LIVE_FINISH), livelen, ", ".join(n for n, f in LIVE_TAIL)))
   rep.bound = dict(max_messages=maxlen, cuts="all 1-cuts; 2-cuts over P (all when L<=%d)%s; fixed read sizes"
                    % (SMALL_STREAM, "; 3-cuts over critical positions" if threecuts else ""),
@@ -804,6 +848,12 @@ def run (cfg):
     if side == "switch":
       items.append((side, (names[-1],) * 7, threecuts, cfg.pox_src))
       items.append((side, (second,) * 1366, threecuts, cfg.pox_src))
+    # near-maximum-size message followed (and preceded) by ordinary ones
+    small, second, big = names[0], names[1], names[-1]
+    for n in JUMBO_SIZES:
+      j = "jumbo_%d" % n
+      for seq in ((j, small), (j, small, second), (j, big), (small, j, small)):
+        items.append((side, seq, threecuts, cfg.pox_src))
   # heavy streams first so the pool drains evenly (order only; every item is run)
   items.sort(key=lambda it: -sum(len(m) for m in build(it[0], it[1])))
   if not cfg.only or cfg.only == "controller-live":
